@@ -65,6 +65,8 @@ LeafFamily ==
   \cup {Leaf(KYX, "is", StrV(<<1, 10>>))}
   \* keys that read like a token of the grammar: "(" and ")"  (and, or, not cannot be spelled in the alphabet)
   \cup {Leaf(key, op, IF op = "eq" THEN IntV(4) ELSE NoV) : key \in {<<PO>>, <<PC>>}, op \in {"exists", "eq"}}
+  \* a key that reads like a clause word (limit): a condition on it is printed and parsed like any other
+  \cup {Leaf(KLIM, "gt", IntV(5)), Leaf(KLIM, "sameas", StrV(<<1>>)), Leaf(KLIM, "is", BoolV(TRUE))}
 
 Partner1 == Leaf(KX, "gt", IntV(3))
 Partner2 == Not(Leaf(KS, "sameas", StrV(<<1>>)))
